@@ -264,7 +264,7 @@ package dispatch
 // C06/C07: an incoming alert is handed to the aggregation of every route the routing tree selects for its labels -
 // each selected route exactly once, in order, with this alert - and to no other route.
 //@ func (*Dispatcher).routeAlert
-//@   props C06 C07
+//@   props C06 C07 C14 C05
 //@   nosafe
 //@   requires d != nil && alert != nil && d.route != nil && tracer != nil
 //@   after call Tracer).Start assume res0 != nil && res1 != nil
